@@ -40,10 +40,9 @@ PhaseOf(r, o) ==
       [] o.tls = "SERVER_POST_HANDSHAKE" -> "confirmed"
       [] OTHER -> "?"
 
-Code(e) == IF e.code_hi = 0 THEN e.code_lo ELSE BigCode
+Code(e) == IF e.code_hi = 0 /\ e.code_lo <= 1024 THEN e.code_lo ELSE BigCode
 Outcome(st, e) == IF e.closed THEN "Close"
-                  ELSE IF e.accepted \/ e.moved \/ e.events > 0 \/ (e.sent > 0 /\ st.phase \notin {"closepending", "hsclosepending"})
-                       THEN "Progress" ELSE "Ignored"
+                  ELSE IF e.accepted \/ e.moved \/ e.events > 0 THEN "Progress" ELSE "Ignored"
 
 StepS(st, e) ==
   CASE e.ev = "init" -> [S0 EXCEPT !.role = e.role, !.phase = e.phase, !.cls = IF KnownClass(e) THEN ClassOf(e) ELSE S0.cls]
